@@ -189,6 +189,12 @@ def run(ctx):
     for ty in ("i8", "u64", "f32", "f64"):
         corpus.append(dup_project([("todo", proj.A([ty])), ("k", "plain")]))
         corpus.append(dup_project([("g", proj.O([("todo", proj.A([ty]))])), ("k", "$t(g.todo, {\"count\": 1})")]))
+    # a fallback written first / in the middle of the last branch's count list (the visitors must read every sequence to its end in every format)
+    for head in ([], ["i32"], ["f64"], ["u8"]):
+        one, two = (proj.F("1.0"), proj.F("2.0")) if head == ["f64"] else (proj.U(1), proj.U(2))
+        for last in (["b", "_", two], ["b", "..", two, proj.U(7) if head != ["f64"] else "7.5"], ["b", two, "_", "9"], ["b", "3 | _", two], ["b", "_"]):
+            corpus.append(dup_project([("n", proj.A(head + [proj.A(["a {{ count }}", one]), proj.A(last)])), ("k", "plain")]))
+            corpus.append(dup_project([("n", proj.A(head + [proj.A(["a", one]), proj.O([("count", proj.A(last[1:])), ("value", "b")])])), ("k", "$t(n, {\"count\": 2})")]))
     projects = corpus + [proj.gen_project(rng) for _ in range(ctx.budget(250, 5000))]
     base = run_projects(ctx, bins["json"], projects)
     again = run_projects(ctx, bins["json"], projects, want_model=False)
